@@ -13,9 +13,16 @@ Vocabulary (defined in Lemmas/IntSet*.lean)
                     (the denoted characteristic function `Nat → Bool`)
 * `Asc xs`        : strictly ascending;  `NRInv rs` : the RangeSet invariant on `Nat` ranges;
                     `NMem rs x` : membership in the union of the ranges
+* `DomWF d`       : the domain's `ordered_values()` are sorted disjoint non-empty ranges, `count()`
+                    is their total size, a continuous domain is a single range
+* `IInvD d s`     : `IInv s ∧ InDom d s`
+* `s.elems d`     : the mathematical member sequence: the domain values `x` (ascending) with
+                    `s.contains x`
+* `lexOrd`        : lexicographic order on member sequences (the specification of `Ord`)
 -/
 import FontVerif.Model.IntSet
 import FontVerif.Lemmas.IntSetObs
+import FontVerif.Lemmas.IntSetEq
 set_option linter.unusedVariables false
 namespace FontVerif.C14IntSet
 open FontVerif FontVerif.IntSet
@@ -255,6 +262,182 @@ theorem ranges_canonical (as bs : List (Nat × Nat)) (ha : NRInv as) (hb : NRInv
     (h : ∀ x, NMem as x ↔ NMem bs x) : as = bs :=
   nrinv_ext ha hb h
 
+
+/-! ## 4. Observers of `IntSet`, both modes -/
+
+/-- the specification object: `elems` lists exactly the members, strictly ascending -/
+theorem intset_elems (d : Domain) (hd : DomWF d) (s : IntSet) :
+    Asc (s.elems d) ∧ ∀ x, x ∈ s.elems d ↔ d.contains x = true ∧ s.contains x = true :=
+  ⟨elems_asc hd s, fun _ => mem_elems⟩
+
+/-- `IntSet::len()` is the number of members in both modes; for an inverted set the `u64`
+subtraction `T::count() - s.len()` never underflows (`len` is never `none`). The hypothesis
+"stored values are domain values" is part of `IInvD`. -/
+theorem intset_len (d : Domain) (hd : DomWF d) (s : IntSet) (h : IInvD d s) :
+    s.len d = some (s.elems d).length ∧
+    (s.inverted = false → s.set.len = (s.elems d).length) ∧
+    (s.inverted = true → s.set.len ≤ d.count ∧ d.count - s.set.len = (s.elems d).length) := by
+  have hl := IntSet.len_spec hd h
+  refine ⟨hl, fun hi => ?_, fun hi => ?_⟩
+  · unfold IntSet.len at hl; rw [hi] at hl; simpa using hl
+  · unfold IntSet.len at hl; rw [hi] at hl
+    simp only [if_true] at hl
+    split at hl
+    · rename_i hle; exact ⟨hle, by simpa using hl⟩
+    · simp at hl
+
+/-- `iter()`, `iter().rev()` and `iter_after(v)` yield the members in ascending / descending /
+ascending-after-`v` order (every prefix length `k`, so the whole sequence) -/
+theorem intset_iter (d : Domain) (hd : DomWF d) (s : IntSet) (h : IInvD d s) (k : Nat) :
+    s.iterTake d k = (s.elems d).take k ∧
+    s.iterBackTake d k = (s.elems d).reverse.take k ∧
+    ∀ v, s.iterAfterTake d v k = ((s.elems d).filter (fun x => decide (x > v))).take k :=
+  ⟨IntSet.iterTake_eq hd h k, IntSet.iterBackTake_eq hd h k, fun v => IntSet.iterAfterTake_eq hd h v k⟩
+
+/-- `first()` is the minimum member, `None` iff the set is empty -/
+theorem intset_first (d : Domain) (hd : DomWF d) (s : IntSet) (h : IInvD d s) :
+    (∀ m, s.first d = some m ↔ d.contains m = true ∧ s.contains m = true ∧
+      ∀ x, d.contains x = true → s.contains x = true → m ≤ x) ∧
+    (s.first d = none ↔ ∀ x, d.contains x = true → s.contains x = false) := by
+  rw [IntSet.first_eq hd h]
+  refine ⟨fun m => ?_, ?_⟩
+  · rw [asc_head?_eq_some (elems_asc hd s), mem_elems]
+    constructor
+    · rintro ⟨⟨h1, h2⟩, h3⟩; exact ⟨h1, h2, fun x hx hs => h3 x (mem_elems.2 ⟨hx, hs⟩)⟩
+    · rintro ⟨h1, h2, h3⟩; exact ⟨⟨h1, h2⟩, fun x hx => h3 x (mem_elems.1 hx).1 (mem_elems.1 hx).2⟩
+  · rw [head?_eq_none_iff']
+    constructor
+    · intro he x hx
+      cases hs : s.contains x
+      · rfl
+      · have := mem_elems.2 ⟨hx, hs⟩; rw [he] at this; simp at this
+    · intro hall
+      cases he : s.elems d with
+      | nil => rfl
+      | cons y t =>
+        have := mem_elems.1 (show y ∈ s.elems d by rw [he]; simp)
+        rw [hall y this.1] at this; simp at this
+
+/-- `last()` is the maximum member, `None` iff the set is empty -/
+theorem intset_last (d : Domain) (hd : DomWF d) (s : IntSet) (h : IInvD d s) :
+    (∀ m, s.last d = some m ↔ d.contains m = true ∧ s.contains m = true ∧
+      ∀ x, d.contains x = true → s.contains x = true → x ≤ m) ∧
+    (s.last d = none ↔ ∀ x, d.contains x = true → s.contains x = false) := by
+  rw [IntSet.last_eq hd h]
+  refine ⟨fun m => ?_, ?_⟩
+  · rw [asc_getLast?_eq_some (elems_asc hd s), mem_elems]
+    constructor
+    · rintro ⟨⟨h1, h2⟩, h3⟩; exact ⟨h1, h2, fun x hx hs => h3 x (mem_elems.2 ⟨hx, hs⟩)⟩
+    · rintro ⟨h1, h2, h3⟩; exact ⟨⟨h1, h2⟩, fun x hx => h3 x (mem_elems.1 hx).1 (mem_elems.1 hx).2⟩
+  · rw [List.getLast?_eq_none_iff]
+    constructor
+    · intro he x hx
+      cases hs : s.contains x
+      · rfl
+      · have := mem_elems.2 ⟨hx, hs⟩; rw [he] at this; simp at this
+    · intro hall
+      cases he : s.elems d with
+      | nil => rfl
+      | cons y t =>
+        have := mem_elems.1 (show y ∈ s.elems d by rw [he]; simp)
+        rw [hall y this.1] at this; simp at this
+
+/-- `intersects_range(a..=b)` (start point a domain value, as the element type guarantees): true
+iff some member lies in `[a, b]`; both modes, continuous and discontinuous domains -/
+theorem intset_intersectsRange (d : Domain) (hd : DomWF d) (s : IntSet) (h : IInvD d s)
+    (a b : Nat) (ha : d.contains a = true) :
+    s.intersectsRange d a b = true ↔
+      ∃ x, a ≤ x ∧ x ≤ b ∧ d.contains x = true ∧ s.contains x = true :=
+  IntSet.intersectsRange_spec hd h a b ha
+
+/-- `RangeIter::next_exclusive` run to exhaustion is the complement within `[min, max]`, again
+in RangeSet normal form -/
+theorem complementRanges_correct (min max : Nat) (rs : List (Nat × Nat)) (hr : NRInv rs)
+    (hb : ∀ p ∈ rs, min ≤ p.1 ∧ p.2 ≤ max) (hmm : min ≤ max) :
+    NRInv (complementRanges min max rs) ∧
+    ∀ x, NMem (complementRanges min max rs) x ↔ min ≤ x ∧ x ≤ max ∧ ¬ NMem rs x :=
+  ⟨(complementRanges_spec max min rs hr hb hmm).1, (complementRanges_spec max min rs hr hb hmm).2.1⟩
+
+/-- `iter_ranges()` on a continuous domain, both modes: RangeSet normal form, covers exactly the
+members, expands to the member sequence -/
+theorem intset_ranges (d : Domain) (hd : DomWF d) (hc : d.continuous = true) (s : IntSet)
+    (h : IInvD d s) :
+    NRInv (s.ranges d) ∧
+    (∀ x, NMem (s.ranges d) x ↔ d.contains x = true ∧ s.contains x = true) ∧
+    expand (s.ranges d) = s.elems d :=
+  IntSet.ranges_spec hd hc h
+
+/-- `iter_excluded_ranges()` on a continuous domain, both modes: the non-members -/
+theorem intset_excludedRanges (d : Domain) (hd : DomWF d) (hc : d.continuous = true) (s : IntSet)
+    (h : IInvD d s) :
+    NRInv (s.excludedRanges d) ∧
+    (∀ x, NMem (s.excludedRanges d) x ↔ d.contains x = true ∧ s.contains x = false) ∧
+    expand (s.excludedRanges d) = s.invert.elems d :=
+  IntSet.excludedRanges_spec hd hc h
+
+/-- `intersects_set`, all four mode combinations, whichever side gets iterated -/
+theorem intset_intersectsSet (d : Domain) (hd : DomWF d) (hc : d.continuous = true)
+    (a b : IntSet) (ha : IInvD d a) (hb : IInvD d b) :
+    a.intersectsSet d b = true ↔
+      ∃ v, d.contains v = true ∧ a.contains v = true ∧ b.contains v = true :=
+  IntSet.intersectsSet_spec hd hc ha hb
+
+/-! ## 5. Eq / Hash / Ord agree with the mathematical set -/
+
+/-- `BitSet == BitSet` ⇔ same members (pages that became empty are ignored) -/
+theorem bitset_beq (a b : BitSet) (ha : BInv a) (hb : BInv b) :
+    a.beq b = true ↔ ∀ x, a.contains x = b.contains x :=
+  BitSet.beq_spec a b ha hb
+
+/-- `impl Ord for BitSet` is the lexicographic order on the ascending member sequences -/
+theorem bitset_cmp (a b : BitSet) (ha : BInv a) (hb : BInv b) :
+    a.cmp b = lexOrd a.members b.members :=
+  BitSet.cmp_spec a b ha hb
+
+/-- `IntSet == IntSet` ⇔ same members: all four mode combinations on a continuous domain (the
+mixed-mode comparison goes through `len` and `iter_ranges`) … -/
+theorem intset_beq (d : Domain) (hd : DomWF d) (hc : d.continuous = true) (a b : IntSet)
+    (ha : IInvD d a) (hb : IInvD d b) :
+    a.beq d b = true ↔ ∀ x, d.contains x = true → a.contains x = b.contains x :=
+  IntSet.beq_spec hd hc ha hb
+
+/-- … and same-mode comparisons on any domain. -/
+theorem intset_beq_same_mode (d : Domain) (a b : IntSet) (ha : IInvD d a) (hb : IInvD d b)
+    (hm : a.inverted = b.inverted) :
+    a.beq d b = true ↔ ∀ x, d.contains x = true → a.contains x = b.contains x :=
+  IntSet.beq_spec_same_mode ha hb hm
+
+/-- hash agreement: what `impl Hash` feeds the hasher is equal ⇔ the sets have the same members
+(so `a == b → hash a = hash b`, and distinct sets feed distinct keys) -/
+theorem intset_hashKey (d : Domain) (hd : DomWF d) (hc : d.continuous = true) (a b : IntSet)
+    (ha : IInvD d a) (hb : IInvD d b) :
+    (a.hashKey d = b.hashKey d ↔ ∀ x, d.contains x = true → a.contains x = b.contains x) ∧
+    (a.hashKey d = b.hashKey d ↔ a.beq d b = true) := by
+  have h1 := IntSet.hashKey_spec hd hc ha hb
+  exact ⟨h1, by rw [h1, IntSet.beq_spec hd hc ha hb]⟩
+
+/-- `impl Ord for IntSet` is the lexicographic order on the ascending member sequences in all
+four mode combinations, and `cmp = Equal ⇔ ==` -/
+theorem intset_cmp (d : Domain) (hd : DomWF d) (hc : d.continuous = true) (a b : IntSet)
+    (ha : IInvD d a) (hb : IInvD d b) :
+    a.cmp d b = lexOrd (a.elems d) (b.elems d) ∧
+    (a.cmp d b = .eq ↔ a.beq d b = true) := by
+  have h1 := IntSet.cmp_spec hd hc ha hb
+  refine ⟨h1, ?_⟩
+  rw [h1, lexOrd_eq_iff, elems_eq_iff hd, IntSet.beq_spec hd hc ha hb]
+
+/-- inclusive sets on any (also discontinuous) domain -/
+theorem intset_cmp_inclusive (d : Domain) (hd : DomWF d) (a b : IntSet)
+    (ha : IInvD d a) (hb : IInvD d b) (h1 : a.inverted = false) (h2 : b.inverted = false) :
+    a.cmp d b = lexOrd (a.elems d) (b.elems d) ∧
+    (a.cmp d b = .eq ↔ a.beq d b = true) := by
+  have h := IntSet.cmp_spec_inclusive hd ha hb h1 h2
+  refine ⟨h, ?_⟩
+  rw [h, lexOrd_eq_iff, elems_eq_iff hd, IntSet.beq_spec_same_mode ha hb (by rw [h1, h2])]
+
+/-- `lexOrd` is the usual lexicographic order: `Equal` only on equal sequences -/
+theorem lexOrd_eq (xs ys : List Nat) : lexOrd xs ys = .eq ↔ xs = ys := lexOrd_eq_iff xs ys
+
 /-! ## non-vacuity: concrete states -/
 
 /-- a set with an empty page left behind by a removal … -/
@@ -280,5 +463,25 @@ example : RangeInDom ⟨[(2, 5), (8, 16)], false, 13⟩ 0 100 := by intro h; sim
 example : RangeInDom Domain.u16 3 65535 := by
   intro _ x h1 h2; simp [Domain.contains, Domain.u16]; omega
 example : NRInv [(2, 5), (7, 9)] := by simp [NRInv]
+/-- the built-in domains and a discontinuous one are well formed -/
+example : DomWF Domain.u32 :=
+  ⟨by simp [RSorted, Domain.u32],
+   by show (4294967296 : Nat) = (expand [(0, 4294967295)]).length
+      rw [length_expand_cons]; rfl,
+   fun _ => ⟨_, _, rfl⟩⟩
+example : DomWF Domain.u16 :=
+  ⟨by simp [RSorted, Domain.u16],
+   by show (65536 : Nat) = (expand [(0, 65535)]).length
+      rw [length_expand_cons]; rfl,
+   fun _ => ⟨_, _, rfl⟩⟩
+example : DomWF ⟨[(2, 5), (8, 16), (510, 513), (1022, 1030), (65530, 65536),
+    (4294967294, 4294967295)], false, 35⟩ :=
+  ⟨by simp [RSorted],
+   by simp only [length_expand_cons]; rfl,
+   fun h => by simp at h⟩
+/-- `IInvD` holds of the inverted state with an empty page above -/
+example : IInvD Domain.u32
+    ((Hist.invert (Hist.remove (Hist.insert (Hist.insert Hist.empty 5) 600) 600)).run Domain.u32) :=
+  ⟨(Hist.run_spec _ _).1, Hist.run_inDom _ _ (by simp [Hist.WF, Domain.contains, Domain.u32])⟩
 
 end FontVerif.C14IntSet
